@@ -2,6 +2,7 @@ import LhasaV.Driver.OpsExtract
 import LhasaV.Lemmas.ExtractTree14
 import LhasaV.Lemmas.ExtractTreeOpt
 import LhasaV.Lemmas.ExtractTreeOw
+import LhasaV.Lemmas.ExtractTreeImp
 /-!
 op `xtree <opts> <root 0|1> <abs prefix hex> <entries> <archive hex>`: evaluates the HYPOTHESES of
 `Props.C06.run_tree_partial` on a generated archive and prints the tree its CONCLUSION promises.
@@ -121,6 +122,30 @@ def opTree3 : List String → Option String
       let arr := items.toArray.qsort (fun a b => pathStr a.1 < pathStr b.1)
       let tree := ";".intercalate (arr.toList.map (fun x => pathStr x.1 ++ "=" ++ entStr fs1.now x.2))
       some s!"kind=ow hyp={b hyp} abort={b pl.2} tree={tree}"
+  | _ => none
+
+/-!
+op `xtree4 <opts> <root 0|1> <abs prefix hex> <entries> <archive hex>`: the implicit-parents / mixed-archive theorem of C06
+(`extract_mixed`, `extract_implicit_parents`): hypothesis `WFI [] [] es` (decidable) evaluated; promised tree = `impTreeOf` of the kept
+entries at every entry path and every proper prefix of one.
+-/
+def opTree4 : List String → Option String
+  | ["xtree4", opts, root, absp, entries, hex] => do
+      let o ← parseOpts opts
+      let absp ← parseHex absp
+      let _arch ← parseHex hex
+      let es ← (if entries == "-" then some [] else (entries.splitOn ",").mapM parseEntry)
+      let fs0 : Fs.St := sandboxFs (root == "1") absp.toList
+      let b := fun (x : Bool) => if x then "1" else "0"
+      let optsOk := o.extractPath.isNone && o.usePath && o.filters.isEmpty
+      let hyp := optsOk && decide (WFI [] [] es)
+      let kept := keptOf [] es
+      let prefixes := (es.map Entry.path).flatMap (fun p => (List.range p.length).map (fun i => p.take (i + 1)))
+      let paths := prefixes.eraseDups
+      let items := paths.filterMap (fun p => (impTreeOf fs0.now fs0.umask kept p).map (fun e => (fs0.cwd ++ p, e)))
+      let arr := items.toArray.qsort (fun a b => pathStr a.1 < pathStr b.1)
+      let tree := ";".intercalate (arr.toList.map (fun x => pathStr x.1 ++ "=" ++ entStr fs0.now x.2))
+      some s!"kind=imp hyp={b hyp} tree={tree}"
   | _ => none
 
 end LhasaV.Driver
